@@ -9,7 +9,7 @@ from .common import LEAN, REPO, write_if_changed
 sys.path.insert(0, str(Path(__file__).resolve().parent.parent))
 
 
-ALL = ("scopemap", "builtin", "envconfig", "checkapi", "skeletons", "alias", "registry")
+ALL = ("scopemap", "builtin", "envconfig", "checkapi", "skeletons", "alias", "registry", "columnprops")
 
 
 def regenerate(which=("scopemap",)) -> dict:
@@ -46,6 +46,9 @@ def regenerate(which=("scopemap",)) -> dict:
         payload = _json.loads(p.stdout.strip().splitlines()[-1])
         write_if_changed(gen / "DtypeRegistry.lean", payload["lean"])
         out["registry"] = payload["dump"]
+    if "columnprops" in which:
+        from extract import columnprops
+        write_if_changed(gen / "ColumnProps.lean", columnprops.render(REPO))
     if "builtin" in which:
         from extract import builtin_checks
         write_if_changed(gen / "BuiltinChecks.lean", builtin_checks.render(REPO))
